@@ -270,6 +270,119 @@ theorem ids_nodup_of_symbols (p : Pair) (subs : List Inst) (hp : p ∈ supported
   rw [this]
   exact List.Pairwise.map _ (fun a b hab h => hab (subId_injective _ _ _ h)) hd
 
+
+/-! ### either instrument representation (`InstRep`: formatted-from-underlying | verbatim `name_exchange`) -/
+
+theorem marketR_eq_venueSymbolR (e : Exch) (r : InstRep) : marketR e r = venueSymbolR e r := by
+  cases r with
+  | formatted i => exact market_eq_venueSymbol e i
+  | verbatim n k => rfl
+
+theorem subscriptionIdR_formatted (p : Pair) (i : Inst) :
+    subscriptionIdR p (.formatted i) = subscriptionId p i := rfl
+
+theorem mapFromR_formatted (p : Pair) (subs : List Inst) (s : Nat) (m : IMap) :
+    mapFromR p s m (subs.map .formatted) = mapFrom p s m subs := by
+  induction subs generalizing s m with
+  | nil => rfl
+  | cons i rest ih => simp only [List.map_cons, mapFromR, mapFrom, subscriptionIdR_formatted, ih]
+
+theorem mapOfR_formatted (p : Pair) (subs : List Inst) :
+    mapOfR p (subs.map .formatted) = mapOf p subs := mapFromR_formatted p subs 0 []
+
+theorem find_mapFromR_not_mem (p : Pair) (subs : List InstRep) (s : Nat) (m : IMap) (id : Str)
+    (h : id ∉ subs.map (subscriptionIdR p)) : (mapFromR p s m subs).find id = m.find id := by
+  induction subs generalizing s m with
+  | nil => rfl
+  | cons i rest ih =>
+    simp only [List.map_cons, List.mem_cons, not_or] at h
+    simp only [mapFromR]
+    rw [ih _ _ h.2, find_insert_ne _ _ _ _ h.1]
+
+theorem find_mapFromR_nodup (p : Pair) (subs : List InstRep) (s : Nat) (m : IMap)
+    (hd : (subs.map (subscriptionIdR p)).Nodup) (k : Nat) (r : InstRep) (hk : subs[k]? = some r) :
+    (mapFromR p s m subs).find (subscriptionIdR p r) = some (s + k) := by
+  induction subs generalizing s m k with
+  | nil => simp at hk
+  | cons i0 rest ih =>
+    simp only [List.map_cons, List.nodup_cons] at hd
+    cases k with
+    | zero =>
+      simp only [List.getElem?_cons_zero, Option.some.injEq] at hk
+      subst hk
+      simp only [mapFromR]
+      rw [find_mapFromR_not_mem _ _ _ _ _ hd.1, find_insert_self]; simp
+    | succ k =>
+      simp only [List.getElem?_cons_succ] at hk
+      simp only [mapFromR]
+      rw [ih _ _ hd.2 k hk]; congr 1; omega
+
+theorem find_mapOfR (p : Pair) (subs : List InstRep) (hd : (subs.map (subscriptionIdR p)).Nodup)
+    (k : Nat) (r : InstRep) (hk : subs[k]? = some r) :
+    (mapOfR p subs).find (subscriptionIdR p r) = some k := by
+  have := find_mapFromR_nodup p subs 0 [] hd k r hk
+  simpa [mapOfR] using this
+
+theorem find_mapOfR_none (p : Pair) (subs : List InstRep) (id : Str)
+    (h : id ∉ subs.map (subscriptionIdR p)) : (mapOfR p subs).find id = none := by
+  simpa [mapOfR, IMap.find] using find_mapFromR_not_mem p subs 0 [] id h
+
+theorem holdersFromR_none (e : Exch) (s : Nat) (subs : List InstRep) (m : Str)
+    (h : m ∉ subs.map (venueSymbolR e)) : holdersFromR e s subs m = [] := by
+  induction subs generalizing s with
+  | nil => rfl
+  | cons i rest ih =>
+    simp only [List.map_cons, List.mem_cons, not_or] at h
+    simp [holdersFromR, Ne.symm h.1, ih _ h.2]
+
+theorem holdersFromR_unique (e : Exch) (s : Nat) (subs : List InstRep) (m : Str)
+    (hd : (subs.map (venueSymbolR e)).Nodup) (k : Nat) (r : InstRep) (hk : subs[k]? = some r)
+    (hm : venueSymbolR e r = m) : holdersFromR e s subs m = [s + k] := by
+  induction subs generalizing s k with
+  | nil => simp at hk
+  | cons i0 rest ih =>
+    simp only [List.map_cons, List.nodup_cons] at hd
+    cases k with
+    | zero =>
+      simp only [List.getElem?_cons_zero, Option.some.injEq] at hk
+      subst hk
+      simp [holdersFromR, hm, holdersFromR_none e (s + 1) rest m (hm ▸ hd.1)]
+    | succ k =>
+      simp only [List.getElem?_cons_succ] at hk
+      have hne : venueSymbolR e i0 ≠ m := by
+        intro h0; apply hd.1; rw [h0, ← hm]
+        exact List.mem_map.mpr ⟨r, List.mem_of_getElem? hk, rfl⟩
+      simp only [holdersFromR, hne, ↓reduceIte]
+      rw [ih (s + 1) hd.2 k hk]; congr 1; omega
+
+theorem holdersFromR_formatted (e : Exch) (s : Nat) (subs : List Inst) (m : Str) :
+    holdersFromR e s (subs.map .formatted) m = holdersFrom e s subs m := by
+  induction subs generalizing s with
+  | nil => rfl
+  | cons i rest ih => simp only [List.map_cons, holdersFromR, holdersFrom, venueSymbolR, ih]
+
+theorem specVerdictR_formatted (e : Exch) (subs : List Inst) (m : Str) :
+    specVerdictR e (subs.map .formatted) m = specVerdict e subs m := by
+  simp only [specVerdictR, specVerdict, holdersR, holders, holdersFromR_formatted]
+
+/-- ids are pairwise distinct when the venue symbols are and every instrument kind is one the
+builder accepts for the pair — for either representation. -/
+theorem idsR_nodup_of_symbols (p : Pair) (subs : List InstRep) (hp : p ∈ supported)
+    (hs : ∀ r ∈ subs, supports p r.kind = true)
+    (hd : (subs.map (venueSymbolR p.exch)).Nodup) : (subs.map (subscriptionIdR p)).Nodup := by
+  have : subs.map (subscriptionIdR p) = (subs.map (venueSymbolR p.exch)).map (subId (venueChannel p)) := by
+    rw [List.map_map]
+    apply List.map_congr_left
+    intro r hr
+    simp [subscriptionIdR, channel_of_supports p r.kind hp (hs r hr), marketR_eq_venueSymbolR]
+  rw [this]
+  exact List.Pairwise.map _ (fun a b hab h => hab (subId_injective _ _ _ h)) hd
+
+/-! ### sign of `PublicTrade.amount` -/
+
+theorem absR_nonneg (a : Rat) : 0 ≤ absR a := by
+  unfold absR; split <;> grind
+
 /-! ### Bitfinex: channel-id re-keying -/
 
 theorem digits_ne_subId (c : Nat) (ch m : Str) : Nat.toDigits 10 c ≠ subId ch m := by
